@@ -6,6 +6,8 @@ observations and mutates the model to the successor state.
 """
 import copy
 import posixpath
+import sys
+
 
 TRANSFER_UP = ("STOR", "APPE")
 TRANSFER_DOWN = ("RETR", "LIST", "MLSD")
@@ -132,7 +134,8 @@ class SessionModel:
                          "pasv", "pbsz", "prot", "pwd", "quit", "rest", "retr", "rmd", "rnfr", "rnto", "stor",
                          "syst", "type", "user")
         if not known:
-            self.rest_unknown = self.rest != 0
+            # the restart offset applies to the immediately following command only - whatever that command is
+            self.rest, self.rest_unknown = 0, False
             return Expect(["502"])
         if verb not in ("retr", "stor", "appe", "rest"):
             self.rest, self.rest_unknown = 0, False
@@ -206,6 +209,10 @@ class SessionModel:
                 m.rest, m.rest_unknown = (val if codes and codes[-1] == "350" else 0), False
             e.apply = apply
             return e
+        if ok and len(arg) > 4000:
+            # more digits than any offset can have (and than the interpreter converts): malformed - but answered
+            self.rest, self.rest_unknown = 0, False
+            return Expect(["5xx"] if self.logged else ["5xx|503|530"])
         if ok:
             self.rest, self.rest_unknown = int(arg), False
             # REST is accepted before login too (it touches nothing); either answer is fine then
